@@ -1,7 +1,7 @@
 #!/bin/sh
 # Development aid: run every registered check of a tier (default quick) and print one line each.
 TIER="${1:-quick}"; shift
-cd /verif
+cd "${VERIF_HOME:-/verif}"
 IDS="${*:-$(python3 -c "import json;print(' '.join(c['property_id'] for c in json.load(open('MANIFEST.json'))['checks']))")}"
 for id in $IDS; do
   s=$(date +%s); out=$(./bin/vcheck run $id --tier $TIER 2>&1); rc=$?; e=$(( $(date +%s) - s ))
